@@ -3,7 +3,7 @@
 id=$1; k=$2; shift 2; checks=${*:-$id}
 src=/verif/seeded/$id-m$k
 git -C /repo diff --quiet || { echo "/repo is dirty"; exit 2; }
-git -C /repo apply $src/patch.diff || git -C /repo apply --3way $src/patch.diff || { echo "patch does not apply"; exit 2; }
+git -C /repo apply $src/patch.diff || { git -C /repo checkout -q -- .; echo "patch does not apply"; exit 2; }
 for c in $checks; do
   out=$(cd /verif && ./check $c --tier quick 2>&1); rc=$?
   echo "== seed $id-m$k check $c exit=$rc"; echo "$out" | grep -v "^KNOWN-FINDING" | head -8
